@@ -260,7 +260,8 @@ fn finish(sink: &mut Sink, p: &Program, joined: Vec<(Handle, Vec<String>, Option
                     unwoken_pending.push(t);
                     let again = poll_once(&mut s, &w);
                     if again != "Pending" {
-                        sink.oracle_fail("C02", &format!("thread {t}: its last poll answered Pending, its waker was never woken, yet a further poll answers {again} (lost wakeup)"));
+                        // not being told about the END of the stream is a failure of C03 as well
+                        sink.oracle_fail(if again == "End" { "C02,C03" } else { "C02" }, &format!("thread {t}: its last poll answered Pending, its waker was never woken, yet a further poll answers {again} (lost wakeup)"));
                     }
                 }
                 // C04: a value is handed out together with the version it belongs to: when every written value is different,
